@@ -1,8 +1,17 @@
 (* C02 - DNS message parsers are total and memory-safe on arbitrary bytes.
    Statements only; proofs are in Wire/*_proofs.v *)
-From CAres.Wire Require Import Cursor Cursor_proofs Name Name_proofs.
+From CAres.Wire Require Import Cursor Cursor_proofs Name Name_proofs Record Parse Parse_proofs.
 From CAres.Gen Require Import Consts.
 Local Open Scope Z_scope.
+
+(* ares_dns_parse on ANY byte string (of a size a C object can have) with ANY parse flags: the
+   model (header, question, every RR decoder incl. multistring / OPT / SVCB loops, RDLENGTH
+   reconciliation) never performs an out-of-bounds read or any other modelled UB, and none of its
+   loop fuels is ever exhausted (safe = not UB, not OutOfFuel) *)
+Theorem C02_parse_no_ub : forall bytes flags,
+  Z.of_nat (length bytes) < 2 ^ 64 -> safe (fun _ => True) (dns_parse bytes flags).
+Proof. exact dns_parse_safe. Qed.
+Print Assumptions C02_parse_no_ub.
 
 (* ares_dns_name_parse at any offset of any block, any fuel >= S(data_len), both modes:
    no out-of-bounds read (no UB of the model) *)
@@ -20,11 +29,12 @@ Print Assumptions C02_name_fuel_sufficient.
 
 (* every followed pointer targets an offset strictly below every label/pointer octet read so far
    and below every earlier target (trace is newest first); the cursor invariant
-   offset <= data_len <= block size holds afterwards, on the same block *)
+   offset <= data_len <= block size holds afterwards, on the same block, and the caller
+   continues strictly after the position the name started at *)
 Theorem C02_name_pointers_strictly_backward : forall fuel c want is_hostname nm c' tr,
   cur_ok c -> (name_fuel c <= fuel)%nat ->
   dns_name_parse_tr fuel c want is_hostname = Ok (nm, c', tr) ->
-  tr_backward tr /\ cur_ok c' /\ same_block c c'.
+  tr_backward tr /\ cur_ok c' /\ same_block c c' /\ c_off c < c_off c'.
 Proof. exact name_parse_pointers_backward. Qed.
 Print Assumptions C02_name_pointers_strictly_backward.
 
